@@ -215,6 +215,7 @@ pub fn plan(prop: &str, tier: &str) -> Option<Plan> {
                 s.push(e2(prop, "u32", H_CONST, "look1+mut+ch0+shape2", &[], 3, "chk", 40.0));
                 // 1 KiB, 64-byte-aligned elements with self-checking padding
                 s.push(e1(prop, "big", H_GOOD, 0, full, &[], 40, 1, 1, "chk", 40.0));
+                s.push(e1(prop, "pod", H_GOOD, 0, full, &[], 33, 1, 1, "chk", 40.0));
                 s.push(e2(prop, "big", H_LOW, "look1+mut+ch0+shape2", &[], 3, "chk", 40.0));
                 s.push(e1(prop, "u32", H_GOOD, 0, "look1+mut+ch0+shape", &[], 600, 1, 0, "chk", 40.0));
                 s.push(e1(prop, "u32", H_LOW, 0, "look1+mut+ch0+shape", &[], 300, 1, 0, "chk", 40.0));
@@ -247,6 +248,9 @@ pub fn plan(prop: &str, tier: &str) -> Option<Plan> {
                 }
                 s.push(e2(prop, "zst", H_GOOD, "look+mut+ch1+bulk2+shape2", &[], 1, "chk", 600.0));
                 s.push(e2(prop, "u32", H_GOOD, "look+mut+ch1+bulk2+shape2", &[], 3, "chk", 900.0));
+                for &hk in &HS4 {
+                    s.push(e1(prop, "pod", hk, 0, full, &[], 130, 1, 1, "chk", 600.0));
+                }
                 for &hk in &[H_GOOD, H_LOW] {
                     s.push(e1(prop, "big", hk, 0, full, &[], 130, 1, 1, "chk", 600.0));
                     s.push(e1(prop, "big", hk, 0, lite, &[], 40, 2, 1, "chk", 900.0));
@@ -631,6 +635,7 @@ pub fn plan(prop: &str, tier: &str) -> Option<Plan> {
                 }
                 s.push(e1(prop, "u32", H_GOOD, 0, "mut1+shape/ch2", &fl, 10, 2, 1, "chk", 45.0));
                 s.push(e1(prop, "tk", H_GOOD, 0, "ch3", &fl, 31, 1, 0, "chk", 45.0));
+                s.push(e1(prop, "pod", H_GOOD, 0, "ch2", &fl, 40, 1, 0, "chk", 45.0));
                 s.push(e1(prop, "u32", H_GOOD, 0, "ch2", &fl, 48, 1, 1, "chk", 45.0));
                 s.push(e1(prop, "u32", H_GOOD, 0, "ch1", &fl, 130, 1, 0, "chk", 45.0));
                 s.push(e1(prop, "u32", H_GOOD, 0, "ch0", &fl, 500, 1, 0, "chk", 45.0));
@@ -643,6 +648,7 @@ pub fn plan(prop: &str, tier: &str) -> Option<Plan> {
                     s.push(e1(prop, "u32", hk, 0, "ch3", &fl, 130, 1, 0, "chk", 900.0));
                     s.push(e1(prop, "u32", hk, 0, "mut1+shape/ch3", &fl, 24, 2, 1, "chk", 1500.0));
                     s.push(e1(prop, "tk", hk, 0, "ch3", &fl, 64, 1, 0, "chk", 900.0));
+                    s.push(e1(prop, "pod", hk, 0, "ch3", &fl, 64, 1, 0, "chk", 900.0));
                 }
                 s.push(e1(prop, "u32", H_GOOD, 0, "ch3", &fl, 40, 1, 1, "chk", 1500.0));
                 s.push(e1(prop, "u32", H_GOOD, 0, "ch2/ch2", &fl, 24, 2, 0, "chk", 1500.0));
@@ -780,6 +786,9 @@ pub fn plan(prop: &str, tier: &str) -> Option<Plan> {
                     s.push(set(e1(prop, "u32", hk, 0, "skey+sshape", &["cursor"], 64, 1, 1, "chk", 45.0)));
                 }
                 s.push(set(e1(prop, "tk", H_GOOD, 0, "skey+sshape", &["cursor"], 40, 1, 1, "chk", 45.0)));
+                // plain data with an identity (no drop glue; Eq / Hash ignore a serial number)
+                s.push(set(e1(prop, "pod", H_GOOD, 0, "skey+sshape", &["cursor"], 40, 1, 1, "chk", 45.0)));
+                s.push(set(e2(prop, "pod", H_LOW, "skey+sshape2", &["cursor"], 3, "chk", 45.0)));
                 s.push(set(e1(prop, "u32", H_GOOD, 0, "skey+sshape", &["cursor"], 24, 2, 1, "chk", 45.0)));
                 s.push(set(e2(prop, "u32", H_GOOD, "skey+sshape2", &["cursor"], 4, "chk", 45.0)));
                 s.push(set(e2(prop, "tk", H_LOW, "skey+sshape2", &["cursor"], 3, "chk", 45.0)));
